@@ -23,6 +23,7 @@ SIZES = {'small': 2700, 'large': 2 ** 20 + 4096,    # large: more than one read 
          'empty': 0}                                  # the published file is empty (and so is a valid copy)
 
 
+PATHLEN = {'n': None}                  # total length of the target path (None: as it comes)
 ENTRY = {'kind': 'download_file'}      # or 'download_test_file' (forced): the same call behind a wrapper
 
 
@@ -52,7 +53,7 @@ def imports():
     core.import_phylib('phylib.io.datasets')
 
 
-def run_download(prior, sum_mode, choices, data_script=None):
+def run_download(prior, sum_mode, choices, data_script=None, fresh_emitter=True):
     """One execution of the real download_file under scripted server answers.
 
     sum_mode: 'correct' | 'wrong' | 'missing' (constant) or 'per-request'.
@@ -62,7 +63,8 @@ def run_download(prior, sum_mode, choices, data_script=None):
     import responses
     import phylib.utils.event as evm
     from phylib.io.datasets import download_file
-    evm.reset()
+    if fresh_emitter:
+        evm.reset()      # (the many-downloads sweep keeps the process's global emitter as it is)
     evm.set_silent(False)
     log = {'data': [], 'sum': [], 'head': 0}
     script = list(data_script) if data_script is not None else None
@@ -111,6 +113,11 @@ def run_download(prior, sum_mode, choices, data_script=None):
         path = d / 'out' / 'file.bin'
         if ENTRY['kind'] == 'download_test_file':
             path = d / 'cfg' / 'test_data' / 'file.bin'
+        elif PATHLEN['n']:
+            # a target whose full path has a given length (the progress line names the path)
+            pad = PATHLEN['n'] - len(str(d / 'out')) - len('/file.bin') - 1
+            if pad >= 1:
+                path = d / 'out' / ('p' * pad) / 'file.bin'
         if not (ENTRY['kind'] == 'download_test_file' and prior == 'absent'):
             # (the wrapper, with no prior file, starts from a configuration directory that does not exist yet)
             path.parent.mkdir(parents=True)
@@ -147,12 +154,38 @@ def run_download(prior, sum_mode, choices, data_script=None):
                 out['outcome'] = 'raised_other:%s' % type(e).__name__
                 out['exc'] = repr(e)[:200]
         out['file_md5'] = hashlib.md5(path.read_bytes()).hexdigest() if path.exists() else None
-    evm.reset()
+    if fresh_emitter:
+        evm.reset()
     out['data'] = log['data']
     out['sum'] = log['sum']
     out['gets'] = len(log['data'])
     out['unscripted'] = 'unscripted' in log['data']
     return out
+
+
+def run_many(case, acc, order):
+    """N good downloads one after the other in one process, the global event system left alone (as in a
+    session that fetches many files): every one of them returns and leaves the published file."""
+    import phylib.utils.event as evm
+    set_bodies('small')
+    ENTRY['kind'] = 'download_file'
+    PATHLEN['n'] = None
+    evm.reset()
+    acc.state()
+    try:
+        for i in range(case['n']):
+            out = run_download(['absent', 'corrupt'][i % 2], 'correct', core.Choices([]), fresh_emitter=False)
+            acc.step(i > 0, 'many:download')
+            ok = out['outcome'] == 'returned' and out['file_md5'] == hashlib.md5(GOOD).hexdigest()
+            if not ok:
+                sig = '%s/direct/constant/download-%s-in-one-process' % (PROP, 'beyond-100th' if i >= 100 else 'early')
+                acc.violation(sig, core.make_record(
+                    PROP, 'many', sig, case=case, op={'download_number': i + 1},
+                    expected='returned, file = published body', observed={k: out.get(k) for k in (
+                        'outcome', 'exc', 'gets', 'file_md5')}), order)
+                break
+    finally:
+        evm.reset()
 
 
 class StopExploration(Exception):
@@ -217,6 +250,7 @@ def run_direct(case, acc, order):
     prior, mode = case['prior'], case['sum']
     set_bodies(case.get('body', 'small'))
     ENTRY['kind'] = case.get('entry', 'download_file')
+    PATHLEN['n'] = case.get('pathlen')
     first = case.get('schedule')
 
     attempted = []
@@ -225,7 +259,8 @@ def run_direct(case, acc, order):
         attempted.append(list(ch.prefix))
         out = run_download(prior, mode, ch)
         _EXECUTED.append({'prior': prior, 'sum': mode, 'body': case.get('body', 'small'),
-                          'entry': case.get('entry', 'download_file'), 'schedule': list(ch.schedule)})
+                          'entry': case.get('entry', 'download_file'), 'pathlen': case.get('pathlen'),
+                          'schedule': list(ch.schedule)})
         del _EXECUTED[:-80]
         return out
 
@@ -286,6 +321,7 @@ def run_direct(case, acc, order):
     case['_seen'] = [(scenario_key(prior, mode, o), sc) for sc, o in seen]
     set_bodies('small')
     ENTRY['kind'] = 'download_file'
+    PATHLEN['n'] = None
     acc.extra['scenarios:%s:%s' % (prior, mode)] = len(set(k for k, _ in case['_seen']))
     if mode != 'per-request':
         acc.sample({'prior': prior, 'checksum': mode,
@@ -374,11 +410,13 @@ def explore(ctx):
     seen_const = {}
     for mode_set, name in ((SUMS, 'direct-constant'), (['per-request'], 'direct-per-request'),
                            (SUMS, 'direct-constant-large'), (SUMS, 'direct-constant-empty'),
-                           (SUMS, 'direct-constant-testfile')):
+                           (SUMS, 'direct-constant-testfile'), (SUMS, 'direct-constant-path56'),
+                           (SUMS, 'direct-constant-path60')):
         cases = [dict({'prior': p, 'sum': s}, **({'body': name.split('-')[-1]}
                                                   if name.split('-')[-1] in SIZES else
                                                   ({'entry': 'download_test_file'}
-                                                   if name.endswith('testfile') else {})))
+                                                   if name.endswith('testfile') else
+                                                   ({'pathlen': int(name[-2:])} if 'path' in name else {}))))
                  for p in PRIOR for s in mode_set]
         # run in-process (small) so that the explored scenario sets can be collected
         sub = core.Acc()
@@ -390,6 +428,7 @@ def explore(ctx):
         ctx.sweeps[name] = {'cases': len(cases), 'states': sub.states, 'transitions': sub.transitions,
                             'nontrivial': sub.nontrivial}
         ctx.acc.merge(sub)
+    ctx.run_cases(run_many, [{'n': 300 if ctx.thorough else 140}], chunk=1, sweep='many-downloads-in-one-process')
     # model
     terminals, info = model_paths(ctx, False)
     if terminals is not None:
@@ -426,16 +465,21 @@ def explore(ctx):
 def _observe(case):
     set_bodies(case.get('body', 'small'))
     ENTRY['kind'] = case.get('entry', 'download_file')
+    PATHLEN['n'] = case.get('pathlen')
     ch = core.Choices(case.get('schedule') or [])
     out = run_download(case['prior'], case['sum'], ch)
     set_bodies('small')
     ENTRY['kind'] = 'download_file'
+    PATHLEN['n'] = None
     return (out['outcome'], tuple(out['data']), tuple(out['sum']), out['file_md5'], len(ch.trace))
 
 
 def replay(record):
     imports()
     acc = core.Acc()
+    if record.get('subcheck') == 'many':
+        run_many(record['case'], acc, 0)
+        return [dict(v['record'], signature=s) for s, v in acc.violations.items()]
     if record['signature'].endswith('behaviour-depends-on-earlier-calls'):
         # the schedule in a fresh process, then after the recorded earlier executions: same observation?
         case = record['case']
@@ -454,7 +498,7 @@ def replay(record):
         if record['signature'] not in acc.violations and record['case'].get('executed_before'):
             # not reproduced on its own: run what the process had executed before it, then the case again
             for h in record['case']['executed_before']:
-                run_direct({'prior': h['prior'], 'sum': h['sum'], 'body': h['body'], 'entry': h['entry'],
+                run_direct({'prior': h['prior'], 'sum': h['sum'], 'body': h['body'], 'entry': h['entry'], 'pathlen': h.get('pathlen'),
                             'schedule': h['schedule']}, core.Acc(), 0)
             acc = core.Acc()
             keys = run_direct({k: v for k, v in record['case'].items() if k != 'executed_before'}, acc, 0)
